@@ -61,6 +61,8 @@ structure Ctx where
   typeName : Nat → Option String
   /-- names the vocabulary under test knows but the model gives no meaning to -/
   otherWords : List String
+  /-- named constants of the vocabulary under test: word, domain, value (read from the implementation) -/
+  consts : List (String × Dom × Nat) := []
 
 /-! ### helpers on stacks -/
 
@@ -311,7 +313,10 @@ def lookupWord (ctx : Ctx) (name : String) : WordKind :=
   | "aset" => .simple wAsetW | "low" => .simple wLow | "high" => .simple wHigh
   | "range" => .simple wRange | "overlap" => .simple wOverlapW
   | "apply" => .apply
-  | _ => if ctx.otherWords.contains name then .unsupported else .unknown
+  | _ =>
+    match ctx.consts.lookup name with
+    | some (d, v) => .simple (wPush (natV v d))
+    | none => if ctx.otherWords.contains name then .unsupported else .unknown
 
 /-! ### the stream semantics -/
 
